@@ -58,6 +58,17 @@ MISSED_FIRST = {  # the property's own check missed it before it was strengthene
     "C05-g": "C05: a quick preview call with a coarse tolerance before the analysis proper (settings must not leak from call to call)",
     "C05-h": "C05: every threshold rule on EMULSIONS under every intensity map (images wholly below / above the unit interval, contrasts 1e-3 .. 1e3); this stream also exposed D23 (fixed in /repo d2a7f21)",
     "C07-h": "C06/C07: vanished droplets (radius 0) listed before live ones in tracked frames",
+    "C11-h": "C11: widths of exactly 0 (sharp interface) on one side of a merge; before that only the broken translation was reported (no-failing-input-found)",
+    "C12-h": "C12: the volume setter on droplets of other sizes, incl. vanished ones (radius exactly 0) and numpy scalars; before that only the broken obligation was reported",
+    "C14-i": "C14: the tracker's output file name is reused from run to run (a longer file left by an earlier run is written over)",
+    "C15-h": "C15: a supplied interface width (candidates already diffuse: the serial path refines in place, the workers refine copies) with droplets cut by a non-periodic edge",
+    "C15-i": "C15: more stored frames than 4 x workers (11 frames) with forced out-of-order completion",
+    "C16-g": "C16: stretch factors that differ from 1 by 2**-18 / 2**-20 and boxes of size 1e-9 and 2e-9 of the same shape analysed in sequence (state keyed by shape and tolerances)",
+    "C17-g": "C17: droplet counting under every threshold rule x exact binary scalings 2**-30, 2**-40, 2**20 of the field",
+    "C17-h": "C17: stretch factors 1e-9, 2e-9, 3e-9 in sequence (lengths below numpy's absolute tolerances)",
+    "C18-i": "C18: the size filter evaluated together with the other options of the analysis (supplied interface widths far wider than the small clusters, requested modes)",
+    "C20-h": "C20: statistics of emulsions whose members' volumes are not the sphere volume of their radius (2-D perturbed droplets with non-zero amplitudes)",
+    "C20-i": "C20: droplets arriving through every kind of iterable (list, tuple, generator, iterator, map, Emulsion) x constructor / extend x consistency check",
     "C20-g": "C20: consistency requested while droplets arrive through another collection (extend / constructor with a mixed Emulsion)",
 }
 rows = []
